@@ -18,6 +18,7 @@ let parse s = if s = "e" then [] else List.map (fun t -> n_of_int (int_of_string
 let show s = if s = [] then "e" else String.concat "." (List.map (fun c -> string_of_int (int_of_n c)) s)
 let lang_of = function "c" -> LC | "cpp" -> LCpp | "py" -> LPy | s -> failwith ("lang " ^ s)
 let rec nat_of_int n = if n <= 0 then O else S (nat_of_int (n - 1))
+(* lang@a<k>: affix-override configuration k (Gen_Strop.cfgs_aff): only the result is printed, flags "-" *)
 let lang_cfg s = match String.split_on_char '@' s with
   | [l] -> (lang_of l, O)
   | [l; k] -> (lang_of l, nat_of_int (int_of_string k))
@@ -29,6 +30,15 @@ let () =
     while true do
       let line = input_line stdin in
       match String.split_on_char ' ' (String.trim line) with
+      | [l; ty; tok] when (match String.split_on_char '@' l with [_; k] -> String.length k > 1 && k.[0] = 'a' | _ -> false) ->
+        (match String.split_on_char '@' l with
+         | [ln; k] ->
+           let kk = nat_of_int (int_of_string (String.sub k 1 (String.length k - 1))) in
+           (match strop_aff kk (lang_of ln) (parse ty) (parse tok) with
+            | Ok t -> print_string ("ok:" ^ show t ^ " - -\n")
+            | ErrRuntime -> print_string "err:R X -\n"
+            | ErrValue -> print_string "err:V X -\n")
+         | _ -> print_string "ERR - -\n")
       | [l; ty; tok] ->
         let (l, k) = lang_cfg l and ty = parse ty and tok = parse tok in
         let r = strop_sel k l ty tok in
